@@ -13,7 +13,7 @@ LEVEL_TEXT = ('Bounded symbolic verification with time as a solver variable: (a)
               '(b) bounded schedules of k arrivals with symbolic integer gaps checked against an oracle (alive iff every gap < H).')
 LEVEL_NOTE = ('Virtual clock of the Twisted model; H/3 is exact rational arithmetic (IEEE rounding of H/3 assumed irrelevant); '
               'integer-second gaps; gaps bounded by 2H per arrival in (b).')
-LEVEL_ADDED = 'Also: negotiation from a Connect state that still carries the hold time an earlier session negotiated.'
+LEVEL_ADDED = 'Also: negotiation from a Connect state that still carries the hold time an earlier session negotiated. Tolerated malformed UPDATEs (bad ORIGIN, out-of-range length fields) in the deadline obligations: they restart the hold timer like any UPDATE.'
 TECHNIQUE = 'symbolic execution with symbolic clock/deadlines (CrossHair+z3, exact rationals for H/3); one-step deadline invariants + bounded symbolic arrival schedules'
 EXPLANATION = 'C03: deadline invariants and bounded arrival schedules with symbolic time.'
 BOUNDS = 'H in {0} u [3,65535] symbolic; clock 0..10^6; elapsed < H/3; schedules of k<=2 (quick) / 3 (thorough) arrivals, gap <= 2H'
